@@ -3,11 +3,11 @@ package c17
 
 import (
 	"errors"
-	"sync/atomic"
 	"fmt"
 	"math"
 	"sort"
 	"strings"
+	"sync/atomic"
 	"testing"
 	"time"
 
@@ -268,7 +268,9 @@ func run(c Case) (pbt.Outcome, error) {
 	root, _ := tally.NewRootScope(tally.ScopeOptions{CachedReporter: rep, Separator: tprom.DefaultSeparator, SanitizeOptions: &so, OmitCardinalityMetrics: true}, 0)
 	scopes := make([]tally.Scope, len(c.Scopes))
 	for i, tg := range c.Scopes {
-		scopes[i] = root.Tagged(tg.Std())
+		m := tg.Std()
+		scopes[i] = root.Tagged(m)
+		pbt.Spoil(m)
 	}
 	model := map[string]map[string]*series{} // family -> labels -> series
 	get := func(fam string, labels map[string]string) *series {
